@@ -250,6 +250,29 @@ example : strptimeFmt [.dir .d, .lit '.', .dir .m, .lit '.', .dir .Y] " 2.1.2020
   decide +kernel
 example : strptimeFmt [.dir .Y, .lit '-', .dir .m] "2020-13".toList {} = none := by decide +kernel
 
+/-! ### xs:base64Binary literals, white space included -/
+
+/-- every literal of xs:base64Binary — with a single space after any character as the grammar allows, and, the
+    whiteSpace facet being `collapse`, with runs of space / tab / CR / LF in those places and around — denotes a
+    byte string, and is read as exactly that byte string (re-encoding it gives the literal without its white
+    space).  Rests on `ByteArray.from_base64` skipping white space (`facts08x.b64IgnoresWhitespace`, by `decide`). -/
+theorem base64_literal_read (s : Text) (h : XsdLex.base64Binary s = true) :
+    ∃ bs, b64FromText facts08x s = some bs ∧ bytesOk bs ∧ b64enc false bs = dropXmlSpace s := by
+  have hF : facts08x.b64IgnoresWhitespace = true := by decide
+  obtain ⟨bs, hd, hok, he⟩ := b64_literal_denotes (dropXmlSpace s) h
+  exact ⟨bs, by simp [b64FromText, hF, hd], hok, he⟩
+
+/-- white space never changes what is read: two texts that differ only in white space are read alike -/
+theorem base64_whitespace_irrelevant (s t : Text) (h : dropXmlSpace s = dropXmlSpace t) :
+    b64FromText facts08x s = b64FromText facts08x t := by
+  have hF : facts08x.b64IgnoresWhitespace = true := by decide
+  simp [b64FromText, hF, h]
+
+example : XsdLex.base64Binary "AAEC AwQF".toList = true ∧ XsdLex.base64Binary " A A E C\r\n\tAwQF\n".toList = true ∧
+    XsdLex.base64Binary "AAEC AwQ".toList = false ∧ XsdLex.base64Binary "YR==".toList = false := by decide +kernel
+example : b64FromText facts08x "AAEC\nAwQF".toList = some [0, 1, 2, 3, 4, 5] := by decide +kernel
+example : XsdLex.hexBinary " 0aFF\n".toList = true ∧ XsdLex.hexBinary "0a FF".toList = false := by decide +kernel
+
 /-! ### Double: the wrapper around CPython's `repr(float)` / `float(str)` -/
 
 /-- PARTIAL by design (DESIGN §4 C08, Float note a): CPython's shortest-repr and its parser are assumed, as
